@@ -171,8 +171,8 @@ def run(chk):
         # Fisher-KPP on a separable network with a growth rate given ON THE GRID (one value per grid node, no component axis): it
         # multiplies the solution node by node
         if kind == 'SPINN':
-            for d in (1, 2):
-                def go_grid_r(d=d):
+            for d, gkey in ((1, 'r'), (2, 'r'), (1, 'g'), (2, 'g')):
+                def go_grid_r(d=d, gkey=gkey):
                     import numpy as _np
                     from ..alg import AT as _AT
                     from ..specs import F as Fs
@@ -181,21 +181,23 @@ def run(chk):
                     u = Net('u', 'SPINN', 1, 'nonstatio_PDE', d)
                     axes = gax('SPINN', d)
                     r_grid = _AT(axes, _np.array(Poly.atom(('F', 'r_grid', None, frozenset(axes))), dtype=object))
-                    r = inst.evaluate(t, x, u, params({"D": Pm("D"), "r": r_grid, "g": Pm("g")}))
+                    pr = {"D": Pm("D"), "r": Pm("r"), "g": Pm("g")}
+                    pr[gkey] = r_grid
+                    r = inst.evaluate(t, x, u, params(pr))
                     exp = []
                     for q in spec_fisher(d):
                         out = Poly()
                         for mono, c in q.t.items():
                             term_ = Poly.const(c)
                             for a_, e_ in mono:
-                                base = Fs('r_grid') if a_ == P('r').single_atom() else Poly({((a_, 1),): 1})
+                                base = Fs('r_grid') if a_ == P(gkey).single_atom() else Poly({((a_, 1),): 1})
                                 for _ in range(e_):
                                     term_ = term_ * base
                             out = out + term_
                         exp.append(out)
                     return compare(r, exp, axes + (1,), "FisherKPP")
-                chk.run("C02.R1", f"{MOD}:FisherKPP.equation", {"kind": kind, "d": d, "growth_rate": "one value per grid node"}, go_grid_r,
-                        construct="FisherKPP[SPINN, growth rate on the grid]")
+                chk.run("C02.R1", f"{MOD}:FisherKPP.equation", {"kind": kind, "d": d, "on_the_grid": {"r": "r(x)", "g": "gamma(x)"}[gkey]}, go_grid_r,
+                        construct=f"FisherKPP[SPINN, {gkey} given on the grid]")
 
         # Ornstein-Uhlenbeck Fokker-Planck 2D
         def go(kind=kind):
